@@ -298,6 +298,24 @@ func main() {
 	// thorough tier: every discharged obligation is re-checked by a second solver (z3 4.8.12), individually
 	crossChecked, crossDisagree := 0, 0
 	if *tier == "thorough" {
+		var pwg sync.WaitGroup
+		psem := make(chan struct{}, *jobs)
+		for _, r := range results {
+			if r.Err != "" || r.Skipped != "" || len(r.Unit.obls) == 0 {
+				continue
+			}
+			r := r
+			pwg.Add(1)
+			psem <- struct{}{}
+			go func() {
+				defer pwg.Done()
+				defer func() { <-psem }()
+				coverPass(r.Unit, r.Unit.obls, smtDir)
+			}()
+		}
+		pwg.Wait()
+	}
+	if *tier == "thorough" {
 		var cwg sync.WaitGroup
 		var mu sync.Mutex
 		csem := make(chan struct{}, *jobs)
